@@ -17,6 +17,7 @@ build_variant() {
 	asan)  CC=gcc;   FL="-O1 -g -fno-omit-frame-pointer -fsanitize=address,undefined -fno-sanitize-recover=undefined -fno-sanitize=nonnull-attribute" ;;
 	plain) CC=gcc;   FL="-O2 -g" ;;
 	msan)  CC=clang; FL="-O1 -g -fno-omit-frame-pointer -fsanitize=memory -fsanitize-memory-track-origins" ;;
+	cov)   CC=gcc;   FL="-O0 -g --coverage" ;;
 	*) echo "unknown variant $v" >&2; exit 2 ;;
 	esac
 	D="$B/$v"
@@ -28,6 +29,7 @@ build_variant() {
 	fi
 	rm -f "$D/stamp"; rm -rf "$D"/tmp.*
 	T="$D/tmp.$$"
+	[ "$v" = cov ] && { T="$D/obj"; rm -rf "$T"; }
 	mkdir -p "$T"
 	flex -Pcfg_yy -o "$T/lexer.c" "$REPO/src/lexer.l"
 	printf '#include "lexer.c"\n#include "vf_lexpeek.c"\n' > "$T/lexer_tu.c"
@@ -40,10 +42,10 @@ build_variant() {
 	$CC $FL "$T/confuse.o" "$T/lexer.o" "$T/vf_rt.o" "$T/cfgdrv.o" -o "$T/cfgdrv"
 	# the equivalence classes of the generated scanner, for the byte alphabets (C02/C03)
 	python3 "$HERE/yy_ec.py" "$T/lexer.c" > "$T/yy_ec.json"
-	mv "$T/cfgdrv" "$D/cfgdrv"
-	mv "$T/yy_ec.json" "$D/yy_ec.json"
+	cp "$T/cfgdrv" "$D/cfgdrv.new" && mv "$D/cfgdrv.new" "$D/cfgdrv"
+	cp "$T/yy_ec.json" "$D/yy_ec.json"
 	cp "$T/lexer.c" "$D/lexer.c"
-	rm -rf "$T"
+	[ "$v" = cov ] || rm -rf "$T"
 	echo "$H" > "$D/stamp"
 }
 
